@@ -44,7 +44,17 @@ def _corrupt_reg(e):
     return False
 
 
-CORRUPTORS = {"Trace_Lang": _corrupt_lang, "Trace_Ctx": _corrupt_ctx, "Trace_Reg": _corrupt_reg}
+def _corrupt_types(e):
+    if e.get("ev") == "type" and e["depth"] <= 32 and e["obs"]["conv"].get("state") == "ok":
+        b = e["obs"]["conv"]["ct"]["pack"]["bits"]
+        if b:
+            b[0] = 1 - b[0]
+            return True
+    return False
+
+
+CORRUPTORS = {"Trace_Lang": _corrupt_lang, "Trace_Ctx": _corrupt_ctx, "Trace_Reg": _corrupt_reg,
+              "Trace_Types": _corrupt_types}
 
 
 def _vc_lang(v):
@@ -72,7 +82,14 @@ def _vc_reg(v):
     return False
 
 
-VECTOR_CORRUPTORS = {"replay": _vc_lang, "replay-hist": _vc_hist, "replay-reg": _vc_reg}
+def _vc_types(v):
+    if v.get("ev") == "type" and v["pack"]["bits"]:
+        v["pack"]["bits"][0] = 1 - v["pack"]["bits"][0]
+        return True
+    return False
+
+
+VECTOR_CORRUPTORS = {"replay": _vc_lang, "replay-hist": _vc_hist, "replay-reg": _vc_reg, "replay-types": _vc_types}
 
 SH = dict(quick=1, thorough=8)
 
@@ -173,6 +190,21 @@ CHECKS = {
         assumptions=[],
         stages=[
             lang("nesting", "c13", 4000, 100000, ["--nctx", "2"], shards=SH),
+        ],
+    ),
+    "C15": dict(
+        level="model_checking",
+        rule="every type with <= MaxDepth layers (every array/map layer string over the 4 primitives) is built in the model "
+             "(Unpack(Pack(T)) = T checked in-model) and replayed: CompoundType and CType packed fields, round trips, C-API type "
+             "construction chain, JSON through from_str/from_slice/from_reader/Value and the C API; regular layer strings of "
+             "13..130 layers; random types to 130 layers and random schemes (0..40 fields, dotted/long/non-ASCII/escaped names, "
+             "duplicates) validated by Trace_Types",
+        exhaustive=True,
+        assumptions=["CompoundType's packed fields are read from its Debug output", "a serde_json::Value object cannot carry duplicate keys"],
+        stages=[
+            mc("types", "MC_C15.tla", dict(quick="MC_C15_quick.cfg", thorough="MC_C15_thorough.cfg"), replay_cmd="replay-types", workers=4),
+            mc("deep", "MC_C15.tla", "MC_C15_deep.cfg", replay_cmd="replay-types", workers=2),
+            trace("random-types-and-schemes", "Trace_Types", ["gen-types"], 1500, 60000, shards=SH),
         ],
     ),
     "C16": dict(
